@@ -211,6 +211,26 @@ func serverScenarios() []*spxScenario {
 			}
 			return x
 		}},
+		{Name: "S14-stream-error-vs-neighbours", Role: "server", Build: func() *spxInst {
+			h := c19Server(harness.ServerOpts{})
+			x := &spxInst{s: h.S, srv: h}
+			x.start = func() {
+				x.startEnv(
+					&harness.EnvThread{Name: "peer", Steps: []harness.EnvStep{
+						{Kind: "inject", Bytes: frames(c19Req(h, 3, true))},
+						// malformed: upper-case field name; its block still updates the shared dynamic table
+						{Kind: "inject", Bytes: frames(c19Req(h, 5, false, [2]string{"X-Upper", "v"}, [2]string{"x-new-entry", "only-the-offender-adds-this"}))},
+						{Kind: "inject", Bytes: frames(peer.Data(5, []byte("late data on the refused stream"), true, -1))},
+						{Kind: "inject", Bytes: frames(c19Req(h, 7, true, [2]string{"x-new-entry", "only-the-offender-adds-this"}))},
+					}},
+					&harness.EnvThread{Name: "handlers", Steps: []harness.EnvStep{
+						{Kind: "finish", Call: 1, Resp: harness.Resp{Status: 200, Headers: c19RespHdr, Body: []byte("r1")}},
+						{Kind: "finish", Call: 2, Resp: harness.Resp{Status: 200, Headers: c19RespHdr, Body: []byte("r2")}},
+					}},
+				)
+			}
+			return x
+		}},
 		{Name: "S13-idle-timeout-vs-new-request", Role: "server", Build: func() *spxInst {
 			h := c19Server(harness.ServerOpts{IdleTimeout: 3 * time.Second})
 			x := &spxInst{s: h.S, srv: h}
